@@ -118,6 +118,7 @@ func c07Trees(c *Ctx) []node {
 	} else {
 		nested = genStacks(1, 1, 2, atoms, wraps, kinds)
 		nested = append(nested, genStacks(1, 1, 3, atoms[:2], []string{"PA", "CA", "AS"}, kinds)...)
+		nested = append(nested, genStacks(1, 1, 2, []node{{T: "leaf"}, {T: "CCL"}}, []string{"CCS", "S"}, kinds)...) // Condition aliases
 	}
 	elems := append(append([]node{}, atoms...), nested...)
 	var roots []node
